@@ -18,6 +18,32 @@ pub fn tolerance(t: TC) -> f64 {
 
 /// the observation named by the property: Rgb::try_from((LinearRgb::try_from(Rgb{t})?, t, BT709))
 pub fn lib_roundtrip(t: TC, vals: &[f32]) -> Result<Vec<f32>, String> {
+    lib_roundtrip_m(t, vals, None)
+}
+
+pub fn lib_roundtrip_m(t: TC, vals: &[f32], mates: Option<u64>) -> Result<Vec<f32>, String> {
+    if let Some(seed) = mates {
+        // one checked value per pixel, in-range mates only (the intermediate linear image is then
+        // in range too); the round trip is stated per component
+        let mut e = Expand(seed ^ 0x10AA);
+        let px: Vec<[f32; 3]> = vals
+            .iter()
+            .enumerate()
+            .map(|(i, v)| {
+                let mut p = [e.unit() as f32, e.unit() as f32, e.unit() as f32];
+                if e.below(3) == 0 {
+                    p = [0.0, 1.0, 0.0];
+                }
+                p[i % 3] = *v;
+                p
+            })
+            .collect();
+        let n = px.len();
+        let rgb = Rgb::new(px, n, 1, t, CP::BT709).map_err(|e| format!("Rgb::new: {e:?}"))?;
+        let lin = LinearRgb::try_from(rgb).map_err(|e| format!("to_linear failed: {e:?}"))?;
+        let back = Rgb::try_from((lin, t, CP::BT709)).map_err(|e| format!("to_gamma failed: {e:?}"))?;
+        return Ok(back.data().iter().enumerate().map(|(i, p)| p[i % 3]).collect());
+    }
     let n = (vals.len() + 2) / 3;
     let mut px = vec![[0.5f32; 3]; n];
     for (i, v) in vals.iter().enumerate() {
@@ -33,8 +59,13 @@ pub fn lib_roundtrip(t: TC, vals: &[f32]) -> Result<Vec<f32>, String> {
 }
 
 pub fn strategy() -> BoxedStrategy<Case> {
-    (sup_transfer(), 0u8..6, any::<u64>(), 1usize..=768)
-        .prop_map(|(t, stratum, seed, n)| Case { t, dir: Dir::ToLinear, vals: Vals::Seeded { stratum, seed, n } })
+    (sup_transfer(), 0u8..8, any::<u64>(), 1usize..=768, prop::bool::weighted(0.25))
+        .prop_map(|(t, stratum, seed, n, mates)| Case {
+            t,
+            dir: Dir::ToLinear,
+            vals: Vals::Seeded { stratum, seed, n: if stratum % 8 == 6 { n.min(96) } else { n } },
+            mates: if mates { Some(seed) } else { None },
+        })
         .boxed()
 }
 
@@ -47,7 +78,7 @@ pub fn check_named(prop: &str, case: &Case, st: &mut Stats) -> Result<(), Violat
     let t = case.t;
     let sig = format!("{prop}:roundtrip:{}", tc_name(t));
     let fail = |msg: String, vals: &[f32]| Violation { signature: sig.clone(), message: msg, case: case.json_with(prop, vals) };
-    let got = match catch(|| lib_roundtrip(t, &vals)) {
+    let got = match catch(|| lib_roundtrip_m(t, &vals, case.mates)) {
         Err(p) => return Err(fail(format!("panic: {p}"), &vals)),
         Ok(Err(e)) => return Err(fail(e, &vals)),
         Ok(Ok(g)) => g,
@@ -64,6 +95,13 @@ pub fn check_named(prop: &str, case: &Case, st: &mut Stats) -> Result<(), Violat
                     Err(_) => false,
                 }
             };
+            if !bad(*x) {
+                return Err(Violation {
+                    signature: sig.clone(),
+                    message: format!("{} round trip: x={:e} returns correctly alone but comes back as {:e} inside this image (neighbour-dependent)", tc_name(t), x, g),
+                    case: case.json_with(prop, &vals),
+                });
+            }
             let small = minimize_f32(*x, 0.0, 1.0, bad);
             if small != *x {
                 let o = lib_roundtrip(t, &[small]).map(|o| o[0]).unwrap_or(f32::NAN);
@@ -79,7 +117,7 @@ pub fn check_named(prop: &str, case: &Case, st: &mut Stats) -> Result<(), Violat
     st.comparisons += vals.len() as u64;
     st.class(&format!("curve_{}", tc_name(t)), 1);
     if let Vals::Seeded { stratum, .. } = case.vals {
-        st.class(&format!("stratum_{}", stratum % 6), 1);
+        st.class(&format!("stratum_{}", stratum % 8), 1);
     }
     if nontrivial {
         let bits: Vec<u32> = vals.iter().map(|v| v.to_bits()).collect();
@@ -109,4 +147,4 @@ pub fn replay(v: &Value) -> Result<(), String> {
     check(&case, &mut Stats::new()).map_err(|v| v.message)
 }
 
-pub const RULE: &str = "cases = (curve in 14 supported, batch of 1..768 values of [0,1] from the 6 strata of C03) generated by proptest, plus a strided (quick) or complete (thorough) enumeration of all f32 in [0,1]; oracle = round trip Rgb{t} -> LinearRgb -> Rgb{t} returns x with |diff| < 5.7e-4 (PQ) / 2.5e-4 (others); non-trivial = batch containing a value strictly inside (0,1); distinct = by hash of (curve, value bits)";
+pub const RULE: &str = "cases = (curve in 14 supported, batch of 1..768 values of [0,1] from the 8 strata of C03, incl. feedback chains and repeats; a quarter of the cases with one checked value per pixel) generated by proptest, plus a strided (quick) or complete (thorough) enumeration of all f32 in [0,1]; oracle = round trip Rgb{t} -> LinearRgb -> Rgb{t} returns x with |diff| < 5.7e-4 (PQ) / 2.5e-4 (others); non-trivial = batch containing a value strictly inside (0,1); distinct = by hash of (curve, value bits)";
